@@ -449,6 +449,27 @@ theorem c07_resync (P : Nat) (h : List Pkt) (e : Enc) (f g : Bytes)
   have hc1 : ValidCfg e1.cfg := by simpa [e1, encode] using hc
   exact c03_roundtrip e1 g _ hc1 hg hclean
 
+/-- expected decoder answers for a series of frames -/
+def expected (e : Enc) : List Bytes → List (DecRes Bytes)
+  | [] => []
+  | f :: fs => List.replicate ((encode e f).2.length - 1) .more ++ [.ok f] ++ expected (encode e f).1 fs
+
+/-- **C03, consecutive frames through the same encoder / decoder pair**: every frame of the series
+comes back exactly, each at its own last packet, and the decoder ends clean. -/
+theorem c03_roundtrip_many (e : Enc) (fs : List Bytes) (d : Dec)
+    (hc : ValidCfg e.cfg) (hf : ∀ f ∈ fs, ValidFrame f) (hd : Clean d) :
+    ∃ d', runDec d (encodeMany e fs).2 = (d', expected e fs) ∧ Clean d' := by
+  induction fs generalizing e d with
+  | nil => exact ⟨d, by simp [encodeMany, runDec, expected], hd⟩
+  | cons f fs ih =>
+    obtain ⟨d1, h1, hc1⟩ := c03_roundtrip e f d hc (hf f (by simp)) hd
+    have hcfg : ValidCfg (encode e f).1.cfg := by simpa [encode] using hc
+    obtain ⟨d2, h2, hc2⟩ := ih (encode e f).1 d1 hcfg (fun g hg => hf g (by simp [hg])) hc1
+    refine ⟨d2, ?_, hc2⟩
+    simp only [encodeMany, expected]
+    rw [runDec_append, h1]
+    simp only [h2]
+
 /-! ## non-vacuity: the hypotheses are satisfiable by non-trivial values -/
 
 /-- a 9-byte frame at limit 4 takes the fragmented path (3 packets) across a sequence-number wrap -/
